@@ -57,7 +57,9 @@ func ruleT2(c *Ctx, id string) {
 			if !IsRepoFunc(cs.Caller) || !inServerPkg(cs.Caller) {
 				continue
 			}
-			R.Check(cs.Caller == pr.owner, id, FuncName(cs.Caller)+"|calls lockmap."+pr.f.Name(), P.Pos(cs.Instr.Pos()), "the lock map is operated only through LockInode/ReleaseInode", "owner", "locking outside the transaction's bookkeeping: the lock is not released by the epilogue")
+			owner := pr.owner
+			okOwner := cs.Caller == owner || actsFor(P, cs.Caller, func(g *ssa.Function) bool { return g == owner }, 0)
+			R.Check(okOwner, id, FuncName(ownerOf(cs.Caller))+"|calls lockmap."+pr.f.Name(), P.Pos(cs.Instr.Pos()), "the lock map is operated only through LockInode/ReleaseInode", "owner", "locking outside the transaction's bookkeeping: the lock is not released by the epilogue")
 		}
 	}
 	// who may call LockInode: GetInodeLocked only
@@ -92,10 +94,19 @@ func ruleT2(c *Ctx, id string) {
 		f := V.ReleaseInode
 		entry := f.Blocks[0].Instrs[0]
 		okRel := false
-		for _, call := range P.CallsIn(f, funcIs(V.LockRelease)) {
-			n, fl, base, _ := loadedField(argN(call, 0))
-			if n == V.Inode && fl == "Inum" && base == ssa.Value(f.Params[1]) {
-				okRel = MustAfter(f, func(in ssa.Instruction) bool { return in == call }, nil)(entry)
+		for _, sc := range scopesOf(f) {
+			for _, call := range P.CallsIn(sc.Fn, funcIs(V.LockRelease)) {
+				n, fl, base, _ := loadedFieldS(argN(call, 0), sc.S)
+				if n == V.Inode && fl == "Inum" && base == ssa.Value(f.Params[1]) {
+					at := call
+					okHelper := true
+					if sc.Via != nil {
+						// the release runs on every path of the helper, and the helper is called on every path
+						okHelper = MustAfter(sc.Fn, func(in ssa.Instruction) bool { return in == call }, nil)(sc.Fn.Blocks[0].Instrs[0])
+						at = sc.Via
+					}
+					okRel = okHelper && MustAfter(f, func(in ssa.Instruction) bool { return in == at }, nil)(entry)
+				}
 			}
 		}
 		R.Check(okRel, id, "fstxn.ReleaseInode|releases its own inode's number", P.Pos(f.Pos()), "Lockmap.Release(ip.Inum) on every path", "same inode", "ReleaseInode unlocks a different number or not at all")
@@ -305,10 +316,17 @@ func ruleT3(c *Ctx, id string) {
 	var trueRets []*ssa.Return
 	for _, b := range vr.Blocks {
 		if r, ok := b.Instrs[len(b.Instrs)-1].(*ssa.Return); ok {
-			if bv, isb := constBool(r.Results[0]); isb && bv {
-				trueRets = append(trueRets, r)
-			} else if !isb {
-				R.Undecided(id, "nfs.validateRename|boolean returns", P.Pos(r.Pos()), "validateRename returns boolean constants", "non-constant result: cannot relate the result to the comparisons")
+			// "still valid" is the constant true, or the status NFS3_OK when the function reports a status
+			if bv, isb := constBool(r.Results[0]); isb {
+				if bv {
+					trueRets = append(trueRets, r)
+				}
+			} else if k, isk := constInt(r.Results[0]); isk && isNamedStatus(r.Results[0].Type()) {
+				if k == 0 {
+					trueRets = append(trueRets, r)
+				}
+			} else {
+				R.Undecided(id, "nfs.validateRename|boolean returns", P.Pos(r.Pos()), "validateRename returns constants (true/false or a status)", "non-constant result: cannot relate the result to the comparisons")
 			}
 		}
 	}
@@ -391,21 +409,31 @@ func ruleT3(c *Ctx, id string) {
 		if len(vcalls) == 1 {
 			vc := vcalls[0].(*ssa.Call)
 			// its inode slice must come from the relock lockInodes calls only
-			srcs := bwdSources(argN(vc, 1))
-			nLock := 0
-			okSrc := true
-			for v := range srcs {
-				if cl, ok := v.(*ssa.Call); ok {
-					if cl.Call.StaticCallee() == V.lockInodes {
-						nLock++
-					} else {
-						okSrc = false
-					}
-				}
-			}
+			okSrc, nLock := derivesOnlyFrom(argN(vc, 1), func(f *ssa.Function) bool { return f == V.lockInodes }, 0)
 			R.Check(okSrc && nLock >= 1, id, "NFSPROC3_RENAME|validateRename sees the relocked inodes", P.Pos(vc.Pos()), "validateRename is given the slice returned by the relock", "value flow", "revalidation is applied to other inodes than the relocked ones")
 			tEdge := boolEdge(ren, vc, true)
 			fEdge := boolEdge(ren, vc, false)
+			if isNamedStatus(vc.Type()) {
+				// the status form: == NFS3_OK is "valid"
+				okM := func(want bool) func(from, to *ssa.BasicBlock) bool {
+					return condEdge(ren, func(cd Cond) (bool, bool) {
+						if cd.X == nil || cd.Y == nil || stripConv(cd.X) != ssa.Value(vc) {
+							return false, false
+						}
+						if k, isk := constInt(cd.Y); !isk || k != 0 {
+							return false, false
+						}
+						switch cd.Op {
+						case token.EQL:
+							return true, want
+						case token.NEQ:
+							return true, !want
+						}
+						return false, false
+					})
+				}
+				tEdge, fEdge = okM(true), okM(false)
+			}
 			var tBlk, fBlk *ssa.BasicBlock
 			for _, b := range ren.Blocks {
 				for _, s := range b.Succs {
@@ -483,6 +511,11 @@ func ruleSlot(c *Ctx, id string) {
 		owner := fn
 		if fn != V.LockInode && fn != drop {
 			owner = ownerOf(fn) // a block of statements extracted from one of the two
+			for _, sc := range scopesOf(owner) {
+				if sc.Fn == fn {
+					arg = sc.S.resolve(arg)
+				}
+			}
 		}
 		key := FuncName(owner) + "|slot looked up under the lock"
 		switch owner {
@@ -597,8 +630,8 @@ func ruleNoent(c *Ctx, id string) {
 						check(b, x.Pos())
 					}
 				case *ssa.Return:
-					for _, r := range x.Results {
-						if isNoent(r) {
+					for i, r := range x.Results {
+						if isNoent(r) && statusEscapes(fn, i) {
 							check(b, x.Pos())
 						}
 					}
@@ -618,4 +651,41 @@ func ruleNoent(c *Ctx, id string) {
 		R.Fail(id, "nfs|NOENT sites", "?", "the server answers NFS3ERR_NOENT somewhere", "no use of the constant found")
 	}
 	_ = V
+}
+
+
+// statusEscapes: the idx-th result of fn is used by some caller as more than
+// the operand of a comparison (stored, passed on, returned, merged): it can
+// become a reply's status.  A status that every caller only compares with a
+// constant is an internal signal.
+func statusEscapes(fn *ssa.Function, idx int) bool {
+	sites := staticSites[fn]
+	if len(sites) == 0 {
+		return true
+	}
+	for _, site := range sites {
+		call, ok := site.(*ssa.Call)
+		if !ok {
+			return true
+		}
+		var vals []ssa.Value
+		if fn.Signature.Results().Len() == 1 {
+			vals = append(vals, call)
+		} else {
+			for _, r := range refs(call) {
+				if ex, ok := r.(*ssa.Extract); ok && ex.Index == idx {
+					vals = append(vals, ex)
+				}
+			}
+		}
+		for _, v := range vals {
+			for _, r := range refs(v) {
+				if bo, ok := r.(*ssa.BinOp); ok && (bo.Op == token.EQL || bo.Op == token.NEQ) {
+					continue
+				}
+				return true
+			}
+		}
+	}
+	return false
 }
